@@ -103,6 +103,7 @@ structure DS where
   dead : Bool := false
   all : List (List UInt8) := []      -- segments of the case, reversed
   up : Option UpS := none            -- upgrade hand-off case
+  upSeen : List UInt8 := []          -- every byte of a hand-off case so far
   -- round trip
   gc : Cfg := ⟨false, false, 0, 0, 32768, true⟩
   c : S := {}
@@ -160,9 +161,13 @@ partial def loop (h : IO.FS.Stream) (d : DS) : IO Unit := do
     | none => IO.println "bad-op"; loop h d
     | some u =>
       let data := bytesOf sp
+      -- the websocket bytes of the case (for the twin line) = what follows the first CR LF CR LF of the whole stream,
+      -- whether or not the connection is still alive
+      let seen := d.upSeen ++ data
+      let wsBytes := match headEnd seen with | some n => seen.drop n | none => []
+      let d := { d with upSeen := seen, all := [wsBytes] }
       if d.dead then IO.println "dead"; loop h d else
       let (u', r) := upParse d.g (mkEnv ws "keys" u.s.k.nwrites) u data
-      let d := if u'.upgraded then { d with all := (if u.upgraded then data else (u.head ++ data).drop ((headEnd (u.head ++ data)).getD 0)) :: d.all } else d
       match r.err with
       | none => IO.println s!"R ok cache={r.s.cache.length} msglen={msgLen r.s} {showActs r.acts}"; loop h { d with up := some u', s := u'.s }
       | some er =>
